@@ -181,6 +181,12 @@ func runCrash(k *kernel.K) {
 	var prevNum uint
 	var prevRound, prevSet uint64
 	restarts := 0
+	// one crash point per run after which the node does not just restart but goes on: what an
+	// interrupted operation left behind must not confuse the operations that follow
+	contAt := -1
+	if k.Bool(1, 2, "continue-after-one-crash") {
+		contAt = genesisLen + k.Choose(total-genesisLen+1, "continue-after-crash-at")
+	}
 	for c := genesisLen; c <= total; c++ {
 		restarts++
 		d := disk.Prefix(c)
@@ -235,6 +241,9 @@ func runCrash(k *kernel.K) {
 			k.Violate("C36", "grandpa-set", "current-set-without-activation-block@"+what, "crash after %d of %d writes (last write: %s): current GRANDPA set id is %d but its activation block is missing: %v", c, total, what, cur, err)
 		}
 		synctest.Wait()
+		if c == contAt && fb != nil {
+			n.continueAfterCrash(k, d, svc, fb, c, what, &salt, &nextAuth)
+		}
 	}
 	k.Info["restarts"] = float64(restarts)
 	k.Info["writes"] = float64(total - genesisLen)
@@ -370,4 +379,66 @@ func (n *crashNode) finalise(k *kernel.K, target common.Hash, round, setID uint6
 	if after, _ := n.gs.GetCurrentSetID(); after != before {
 		k.Probe("scheduled-change-applied")
 	}
+}
+
+// continueAfterCrash: the node restarted from the first c writes goes on - two blocks on top of its
+// finalised head, the first announcing a scheduled authority change without delay, both finalised one
+// after the other (the change is applied) - and is then restarted once more from everything written.
+func (n *crashNode) continueAfterCrash(k *kernel.K, d *simdisk.Disk, svc *state.Service, head *fBlock, c int, what string, salt *int, nextAuth *byte) {
+	n2 := &crashNode{disk: d, bs: svc.Block, ss: svc.Storage, gs: svc.Grandpa, all: n.all,
+		ref: cu.NewRefTree(&cu.RefBlock{Hash: head.rb.Hash, Number: head.rb.Number, Header: head.rb.Header})}
+	rnd, _, err := svc.Block.GetHighestRoundAndSetID()
+	if err != nil {
+		return // reported by the restart oracle already
+	}
+	mk := func(p *fBlock, change bool) *fBlock {
+		*salt++
+		st := map[string][]byte{}
+		for kk, v := range p.state {
+			st[kk] = v
+		}
+		key, val := []byte{'z'}, []byte{9, byte(*salt)}
+		st[string(key)] = val
+		dg := cu.BabeDigest(true, 0, uint64(1000+*salt))
+		if change {
+			*nextAuth++
+			dg.Add(grandpaDigest(types.GrandpaScheduledChange{Auths: authSet(*nextAuth, *nextAuth+1, *nextAuth+2), Delay: 0}))
+		}
+		h := types.NewHeader(p.rb.Hash, common.Hash(su.SpecRoot(st, su.V0)), common.Hash{byte(*salt)}, p.rb.Number+1, dg)
+		fb := &fBlock{rb: &cu.RefBlock{Hash: h.Hash(), Parent: p.rb.Hash, Number: p.rb.Number + 1, Header: h}, state: st, puts: [][2][]byte{{key, val}}, parent: p}
+		n.all[fb.rb.Hash] = fb
+		return fb
+	}
+	b1 := mk(head, true)
+	b2 := mk(b1, false)
+	k.Event("continue", "after the crash at %d (%s): import %s (+scheduled change) and %s, finalise both", c, what, cu.Short(b1.rb.Hash), cu.Short(b2.rb.Hash))
+	n2.importBlock(k, b1)
+	n2.importBlock(k, b2)
+	for i, b := range []*fBlock{b1, b2} {
+		setID, err := n2.gs.GetCurrentSetID()
+		if err != nil {
+			k.Violate("C36", "scenario", "current-set-id-unreadable", "GetCurrentSetID failed while going on after a crash: %v", err)
+		}
+		n2.finalise(k, b.rb.Hash, rnd+1+uint64(i), setID)
+		synctest.Wait()
+	}
+	k.Probe("went-on-after-a-crash")
+	svc2 := state.VerifNewServiceOverDB(d.Clone().Open(), noTelemetry{}, babeCfg)
+	if err := svc2.Start(); err != nil {
+		k.Violate("C36", "restart", "restart-failed-after-going-on@"+what, "crash after %d writes (last: %s), restart, two more blocks finalised, restart: %v", c, what, err)
+	}
+	cur, err := svc2.Grandpa.GetCurrentSetID()
+	if err != nil {
+		k.Violate("C36", "grandpa-set", "current-set-id-unreadable-after-going-on@"+what, "crash after %d writes (last: %s), then going on: current set id unreadable: %v", c, what, err)
+	}
+	if _, err := svc2.Grandpa.GetAuthorities(cur); err != nil {
+		k.Violate("C36", "grandpa-set", "current-set-without-authorities-after-going-on@"+what, "crash after %d writes (last: %s), restart, a further scheduled change applied, restart: current GRANDPA set id is %d but its authority list is missing: %v", c, what, cur, err)
+	}
+	if _, err := svc2.Grandpa.GetSetIDChange(cur); err != nil {
+		k.Violate("C36", "grandpa-set", "current-set-without-activation-block-after-going-on@"+what, "crash after %d writes (last: %s), restart, a further scheduled change applied, restart: current GRANDPA set id is %d but its activation block is missing: %v", c, what, cur, err)
+	}
+	if h2, err := svc2.Block.GetHighestFinalisedHeader(); err != nil || h2.Hash() != b2.rb.Hash {
+		k.Violate("C36", "restart", "finalised-head-after-going-on@"+what, "crash after %d writes (last: %s), then going on: finalised head is not the block finalised last (%v)", c, what, err)
+	}
+	synctest.Wait()
 }
